@@ -13,12 +13,10 @@ def reg(**kw):
     kw.setdefault("trusted", COMMON_TRUSTED)
     CHECKS[kw["id"]] = kw
 
-reg(id="C18", engine="bytecore",
-    title="Generated output obeys Internet-message line discipline",
-    technique="Coq proof (induction/invariants over a Gallina model of base64LineBreaker, quotedprintable.Writer, writeHeader) + source-regenerated constants + differential correspondence via extracted OCaml model",
-    level_text="Machine-checked theorems for every content and every chunking: the base64 line breaker yields exactly the 76-column wrapping (chunk independence), all base64 and quoted-printable body lines are <= 76, CRLF-terminated, without bare CR/LF. The model is tied to /repo on every run: constants and the line-breaker comparison are regenerated from the source (T1), and the model's output is compared byte-for-byte with the real WriteTo output for thousands of contents x chunkings (T3). Header folding is model-compared and oracle-checked; its bound theorem is stated in coq/props/C18.v.",
-    level_note="Trusted: Coq kernel, translator, extraction+driver, harness. Modelled not verified: Go's base64 encoder chunking (irrelevant by the chunk-independence theorem), quotedprintable.Writer (hand model validated by T3). Part headers written by multipart.CreatePart are not folded by go-mail: recorded known finding (part-header-line-too-long).",
-    rule="contents of length 0..130 (+ around multiples of 57/76/768, thorough: 0..400 and random to 5000) x 9 chunkings {whole,1,3,57,76,1024,prime,random,random+empty write} for base64 (single part and attachment) and quoted-printable; 1500 (thorough 60000) header value lists with word lengths 0..300 and multiple/leading/trailing blanks; file names through part headers. Non-trivial = more than one chunk and content beyond one wrap line, or header value longer than 60 characters; distinct by hash of the case line.",
-    design_ref="DESIGN.md section 5 C18",
-    assumptions=["bytes.Buffer writes never fail (the line breaker's and QP writer's destination inside writeBody)",
-                 "a final unterminated line of a body is completed by the CRLF the enclosing writer (multipart delimiter / SMTP dot-writer) adds"])
+import glob, importlib.util, os
+for _p in sorted(glob.glob(os.path.join(os.path.dirname(os.path.abspath(__file__)), "checks", "C*.py"))):
+    _spec = importlib.util.spec_from_file_location("check_" + os.path.basename(_p)[:-3], _p)
+    _m = importlib.util.module_from_spec(_spec)
+    _m.reg = reg
+    _m.COMMON_TRUSTED = COMMON_TRUSTED
+    _spec.loader.exec_module(_m)
